@@ -546,4 +546,51 @@ VARIANTS += [
     PV("n5-v4score-6", ALL, "selftest/patches/n5-v4score-6.diff"),
     # per-metric work moved into a helper class MetricQuestion with properties and an ask() method
     PV("n5-inter-6", ["C16", "C08", "C17", "C19", "C20"], "selftest/patches/n5-inter-6.diff"),
+    # ---------------------------------------------------------------- round 6: neutral refactorings of the fourth round of sub-agents
+    # cvss/cvss2.py: CVSS2.parse_vector's per-field work (empty check, split on ':', metric and value lookup) is extracted into a new method CVSS2._parse_fi
+    PV("n6-C04-1", NO14, "selftest/patches/n6-C04-1.diff"),
+    # cvss/cvss3.py: the if/elif startswith chain for 'CVSS:3.0/' / 'CVSS:3.1/' in CVSS3.parse_vector becomes a for/else loop over a new module-level table 
+    PV("n6-C04-2", NO14, "selftest/patches/n6-C04-2.diff"),
+    # cvss/cvss4.py: the prefix literal is hoisted into a module constant VECTOR_PREFIX; the syntactic part of CVSS4.parse_vector (slicing off the prefix, s
+    PV("n6-C04-3", NO14, "selftest/patches/n6-C04-3.diff"),
+    # cvss/cvss2.py: CVSS2.from_rh_vector() merges the two try blocks (split/unpack and float() both raise ValueError and produced the same CVSS2RHMalformed
+    PV("n6-C12-1", ["C12", "C08", "C07", "C18", "C19", "C20", "C09"], "selftest/patches/n6-C12-1.diff"),
+    # cvss/cvss3.py: CVSS3.clean_vector() becomes a list comprehension over METRICS_ABBREVIATIONS using original_metrics.get(metric, 'X') != 'X' and a condi
+    PV("n6-C12-2", ["C12", "C08", "C07", "C18", "C19", "C20", "C09"], "selftest/patches/n6-C12-2.diff"),
+    # cvss/cvss4.py: the split-at-first-slash + float() parsing of CVSS4.from_rh_vector() is extracted into a module-level helper split_rh_notation(vector) 
+    PV("n6-C12-3", ["C12", "C08", "C07", "C18", "C19", "C20", "C09"], "selftest/patches/n6-C12-3.diff"),
+    # parser.py restructured: the candidate regex is compiled once at module level (CANDIDATE_RE), choosing the class and calling the constructor moved into
+    PV("n6-C13-1", ["C13", "C07", "C04", "C19", "C20"], "selftest/patches/n6-C13-1.diff"),
+    # CVSS3.parse_vector() restructured: the if/elif chain over the 'CVSS:3.0/' / 'CVSS:3.1/' prefixes became a for/else loop over a module-level SUPPORTED_
+    PV("n6-C13-2", ["C13", "C07", "C04", "C19", "C20"], "selftest/patches/n6-C13-2.diff"),
+    # The equality / cleaning path used for de-duplication, in both CVSS2 and CVSS3: clean_vector() builds the string with one generator expression over MET
+    PV("n6-C13-3", ["C13", "C07", "C04", "C19", "C20"], "selftest/patches/n6-C13-3.diff"),
+    # cvss/interactive.py: the inline creation of value names with hints (letter marking, '(X)Not Defined' and the CVSS2 exceptions) is extracted into a new
+    PV("n6-C16-1", ["C16", "C08", "C17", "C19", "C20"], "selftest/patches/n6-C16-1.diff"),
+    # cvss/interactive.py: the 'while True' question loop is extracted into a new helper ask_value(question, values, not_defined) that loops until an answer
+    PV("n6-C16-2", ["C16", "C08", "C17", "C19", "C20"], "selftest/patches/n6-C16-2.diff"),
+    # cvss/interactive.py: the three function-level 'from .constantsN import ...' statements are replaced by one module-level 'from . import constants2, con
+    PV("n6-C16-3", ["C16", "C08", "C17", "C19", "C20"], "selftest/patches/n6-C16-3.diff"),
+    # cvss/cvss_calculator.py (output stage of main): the if/elif chain selecting CVSS2/CVSS3/CVSS4 moved into a helper cvss_class(version) (same conditions
+    PV("n6-C17-1", ["C17", "C16", "C19", "C20"], "selftest/patches/n6-C17-1.diff"),
+    # cvss/interactive.py: the hint generation inside ask_interactively() (bracket every letter of the value in its name with str.replace, '(X)Not Defined' 
+    PV("n6-C17-2", ["C17", "C16", "C19", "C20"], "selftest/patches/n6-C17-2.diff"),
+    # cvss/cvss_calculator.py (argument stage of main): the three add_argument calls for -2/-3/-4 became a loop over a module-level table VERSION_FLAGS of (
+    PV("n6-C17-3", ["C17", "C16", "C19", "C20"], "selftest/patches/n6-C17-3.diff"),
+    # CVSS3.as_json(): the three copy-pasted blocks (base, temporal, environmental) are replaced by one loop over a table of (group name, metrics, score, se
+    PV("n6-C11-1", ["C11", "C10", "C09", "C18", "C19", "C20"], "selftest/patches/n6-C11-1.diff"),
+    # CVSS2.as_json(): the nested us()/add_metric_to_data() closures that wrote into 'data' are replaced by a metric_fields() helper returning a list of (sc
+    PV("n6-C11-2", ["C11", "C10", "C09", "C18", "C19", "C20"], "selftest/patches/n6-C11-2.diff"),
+    # CVSS4: as_json() builds its result from itertools.chain(header pairs, a generator of (schema name, value) pairs produced by a new nested metric_field(
+    PV("n6-C11-3", ["C11", "C10", "C09", "C18", "C19", "C20"], "selftest/patches/n6-C11-3.diff"),
+    # CVSS3.as_json() in cvss/cvss3.py: the three copy-pasted blocks for the base, temporal and environmental group (and the add_metric_to_data closure) are
+    PV("n6-C10-1", ["C10", "C11", "C09", "C04", "C18", "C20"], "selftest/patches/n6-C10-1.diff"),
+    # CVSS3.severities() in cvss/cvss3.py (used by as_json() for base/temporal/environmentalSeverity): the if/elif chain inside the loop is replaced by a mo
+    PV("n6-C10-2", ["C10", "C11", "C09", "C04", "C18", "C20"], "selftest/patches/n6-C10-2.diff"),
+    # cvss/cvss2.py: CVSS2.parse_vector() uses guard clauses (unknown metric, then unknown value, then duplicate - same precedence and messages as the neste
+    PV("n6-C10-3", ["C10", "C11", "C09", "C04", "C18", "C20"], "selftest/patches/n6-C10-3.diff"),
+    # 
+    PV("n6-C18-1", NO14, "selftest/patches/n6-C18-1.diff"),
+    # 
+    PV("n6-C18-2", NO14, "selftest/patches/n6-C18-2.diff"),
 ]
